@@ -46,12 +46,12 @@ func c20Body(role string, variant string) func() {
 			var err error
 			if role == "ini" {
 				peer, self = "SRV", "CLI"
-				h = simplefixgo.NewInitiatorHandler(context.Background(), "35", 4)
+				h = simplefixgo.NewInitiatorHandler(context.Background(), "35", 64)
 				s, err = session.NewInitiatorSession(h, opts(), &session.LogonSettings{
 					TargetCompID: peer, SenderCompID: self, HeartBtInt: 1, EncryptMethod: "0", CloseTimeout: time.Second,
 				}, st, st)
 			} else {
-				h = simplefixgo.NewAcceptorHandler(context.Background(), "35", 4)
+				h = simplefixgo.NewAcceptorHandler(context.Background(), "35", 64)
 				s, err = session.NewAcceptorSession(opts(), h, &session.LogonSettings{
 					LogonTimeout: 30 * time.Second, HeartBtLimits: &session.IntLimits{Min: 1, Max: 60}, CloseTimeout: time.Second,
 				}, func(*session.LogonSettings) error { return nil }, st, st)
@@ -64,10 +64,13 @@ func c20Body(role string, variant string) func() {
 				n := 0
 				for {
 					select {
-					case _, ok := <-h.Outgoing():
+					case m, ok := <-h.Outgoing():
 						if !ok {
 							drained <- n
 							return
+						}
+						if *vlib.Verbose {
+							fmt.Fprintf(os.Stderr, "  [c20 %s/%s] %v wire: %s\n", role, variant, vsched.NowOffset(), show(m))
 						}
 						n++
 					case <-h.Context().Done():
@@ -123,7 +126,12 @@ func c20Body(role string, variant string) func() {
 		}
 		in("1", "112=ping")
 		in("2", "7=1", "16=2")
-		time.Sleep(2500 * time.Millisecond) // both timers expire: Heartbeats at 1 s and 2 s, TestRequest at 2 s
+		time.Sleep(750 * time.Millisecond)
+		// everything sent so far is asked for again right after the senders' second round (700 ms), before
+		// any timer has fired: the retransmission works on the stored message objects while nothing but
+		// the library's own locks orders it after the application's sends
+		in("2", "7=1", "16=0")
+		time.Sleep(1750 * time.Millisecond) // both timers expire: Heartbeats and the TestRequest
 		in("0", "112=1")                    // the answer to the session's TestRequest
 		in("D", "11=x")
 		for i := 0; i < 4; i++ {
